@@ -88,8 +88,66 @@ pub fn fz_c07(data: &[u8]) -> Vec<String> {
     sigs(&ctx)
 }
 
+/// Families whose cases are driven by the fuzzer's bytes: (property, family). The monitors are the native
+/// ones; only the source of the generators' choices changes (Rng::from_tape), so libFuzzer's coverage
+/// feedback steers the *structured* workload (which message, which lengths, which opaque content).
+pub const STRUCT_FAMILIES: &[(&str, &str)] = &[
+    ("C02", "plain-valid"), ("C02", "plain-content-wants-more"), ("C02", "foreign-openers"),
+    ("C03", "lists"), ("C03", "truncation"), ("C03", "length-bitflips"), ("C03", "first-malformed"),
+    ("C04", "roundtrip"), ("C04", "R2-R7"), ("C04", "R10"), ("C04", "R11"), ("C04", "len-param-body-parsers"), ("C04", "len-corruptions"),
+    ("C05", "known-contents"), ("C05", "lists"), ("C05", "corruptions"),
+    ("C06", "records"), ("C06", "handshake"), ("C06", "extensions"), ("C06", "tag-parsers"), ("C06", "sct"), ("C06", "kx-sig"), ("C06", "dtls-records"), ("C06", "dtls-handshake"),
+    ("C07", "S1-S2-splits"), ("C07", "S3-S4-S6-histories"), ("C07", "S7-soup"),
+    ("C08", "walk"),
+    ("C09", "messages"), ("C09", "cke-forms"), ("C09", "records"), ("C09", "parsed-values"), ("C09", "extensions"),
+    ("C10", "records"), ("C10", "handshake"), ("C10", "datagrams"),
+    ("C13", "dh"), ("C13", "ec"), ("C13", "sig"), ("C13", "content-and-signature"),
+    ("C14", "lists"), ("C14", "single"), ("C14", "corruptions"), ("C14", "len-corruptions"), ("C14", "truncation"),
+    ("C15", "parsed"), ("C15", "constructed"),
+    ("C16", "tls"), ("C16", "dtls"),
+];
+
+pub fn struct_families_of(prop: &str) -> Vec<usize> {
+    STRUCT_FAMILIES.iter().enumerate().filter(|(_, (p, _))| prop.is_empty() || *p == prop).map(|(i, _)| i).collect()
+}
+
+/// byte 0: family (among those of $FZ_PROP, or all), byte 1: case index (mod 6: some families key sub-cases on it),
+/// rest: the tape the generators read
+pub fn fz_struct(data: &[u8]) -> Vec<String> {
+    if data.len() < 3 {
+        return vec![];
+    }
+    thread_local! {
+        static FAMS: Vec<usize> = struct_families_of(&std::env::var("FZ_PROP").unwrap_or_default());
+    }
+    let k = FAMS.with(|f| if f.is_empty() { None } else { Some(f[data[0] as usize % f.len()]) });
+    let k = match k {
+        Some(k) => k,
+        None => return vec![],
+    };
+    let (prop, fam) = STRUCT_FAMILIES[k];
+    let mut ctx = new_ctx(prop);
+    ctx.only = Some((fam.to_string(), (data[1] % 6) as u64));
+    ctx.tape = Some(std::sync::Arc::new(data[2..].to_vec()));
+    // a panic inside the harness's own generators (not in the crate under test) is not a finding
+    match crate::ctx::guard(|| crate::monitors::run(&mut ctx)) {
+        Ok(_) => {}
+        Err(p) => {
+            if p.in_harness() {
+                return vec![];
+            }
+            return vec![format!("c{}:{} (panic in the crate under test, family {})", &prop[1..], p.sig(), fam)];
+        }
+    }
+    if std::env::var_os("FZ_TRACE").is_some() {
+        eprintln!("fz_struct {} {} idx={} evals={} violations={}", prop, fam, data[1] % 6, ctx.evals, ctx.violations.len());
+    }
+    sigs(&ctx)
+}
+
 pub fn run_target(target: &str, data: &[u8]) -> Option<Vec<String>> {
     Some(match target {
+        "fz_struct" => fz_struct(data),
         "fz_c01" => fz_c01(data),
         "fz_c06" => fz_c06(data),
         "fz_c07" => fz_c07(data),
